@@ -32,6 +32,7 @@ type Field struct {
 	FromBytesStrict         bool
 	FromBytesMax            *big.Int
 	InvZeroDefined          bool
+	MontBits                uint // >0: elements are kept in Montgomery form with R = 2^MontBits; operands whose INTERNAL limbs are structured are added
 }
 
 type Event struct {
@@ -121,6 +122,29 @@ func mod(a, p *big.Int) *big.Int { return new(big.Int).Mod(a, p) }
 // Run emits up to n events (more for the full structured cross product when cross is true).
 func Run(f *Field, rng *rand.Rand, n int, emit func(Event)) {
 	st := Structured(f.P, f.Max)
+	var mont []*big.Int
+	if f.MontBits > 0 {
+		rinv := new(big.Int).ModInverse(new(big.Int).Lsh(big.NewInt(1), f.MontBits), f.P)
+		limbs := int(f.MontBits / 64)
+		pats := []*big.Int{big.NewInt(0), big.NewInt(1), big.NewInt(5)}
+		for i := 0; i < limbs; i++ {
+			for _, b := range []uint{31, 32, 33, 47, 63} {
+				pats = append(pats, new(big.Int).Lsh(big.NewInt(1), uint(64*i)+b))
+			}
+		}
+		all := new(big.Int)
+		for i := 0; i < limbs; i++ {
+			all.SetBit(all, 64*i+32, 1)
+		}
+		pats = append(pats, all, new(big.Int).Add(all, big.NewInt(5)), new(big.Int).Add(new(big.Int).Lsh(big.NewInt(1), 40), big.NewInt(5)))
+		for _, m := range pats {
+			v := new(big.Int).Mod(new(big.Int).Mul(m, rinv), f.P)
+			if v.Cmp(f.Max) <= 0 {
+				mont = append(mont, v)
+			}
+		}
+		st = append(st, mont...)
+	}
 	pick := func() *big.Int {
 		if rng.Intn(3) > 0 {
 			return st[rng.Intn(len(st))]
@@ -236,7 +260,10 @@ func Run(f *Field, rng *rand.Rand, n int, emit func(Event)) {
 			hint(&e, 0, px, f.Get(z))
 			emit(e)
 		case c == 7 && f.IsZero != nil:
-			if rng.Intn(2) == 0 { // make zero-class values likely
+			if len(mont) > 0 && rng.Intn(2) == 0 {
+				f.Set(x, mont[rng.Intn(len(mont))])
+				px = f.Get(x)
+			} else if rng.Intn(2) == 0 { // make zero-class values likely
 				v := new(big.Int).Mul(f.P, big.NewInt(int64(rng.Intn(3))))
 				if v.Cmp(f.Max) > 0 {
 					v = big.NewInt(0)
@@ -253,7 +280,11 @@ func Run(f *Field, rng *rand.Rand, n int, emit func(Event)) {
 			hint(&e, 1, f.Get(x), px)
 			emit(e)
 		case c == 8 && f.Eq != nil && x != y:
-			if rng.Intn(2) == 0 { // congruent but (where admissible) differently represented
+			if len(mont) > 0 && rng.Intn(2) == 0 { // internal representations that differ in few, chosen bits
+				f.Set(x, mont[rng.Intn(len(mont))])
+				f.Set(y, mont[rng.Intn(len(mont))])
+				px, py = f.Get(x), f.Get(y)
+			} else if rng.Intn(2) == 0 { // congruent but (where admissible) differently represented
 				v := new(big.Int).Add(px, f.P)
 				if v.Cmp(f.Max) > 0 {
 					v = px
